@@ -181,7 +181,9 @@ class Probe(SourceProxy):
         Used for selectors with two focuses
         """
         if not self._raw:
-            data = {name: cap.value for name, cap in data.items()}
+            data = {
+                name: cap.value for name, cap in data.items() if cap.values
+            }
 
         data["$wrap"] = {
             "id": id(acc),
